@@ -59,6 +59,15 @@ def run(ctx):
     for q_ in ("rdp.grdp", "rdp.mp_grdp"):
         rm.check_distance_dispatch(rc, "G1", q_)
     _g3(rc, mg)
+    # the acceptance test reads evaluation.compute_global_cost through ONE cache shared by every refinement of a run:
+    # the cost of S_k is the stated one only if nothing cached for S_j (another breakpoint set) is reused for S_k
+    from . import c15
+    for k_, v_ in {"U1": "every cache store: def-use closure of the stored value within key components + points + metric (evaluation.compute_global_cost / compute_cost)",
+                   "U2": "a segment with <= 2 points stores the literal 0", "U3": "divisor total == len(points) + len(segment_errors) - 1, recomputed for each breakpoint set",
+                   "U4": "final cost clipped at 0", "U5": "per metric: finalise(sum partial) is the stated global cost"}.items():
+        res.rule(k_, v_)
+    c15._global_cost_loop(rc)
+    c15._compute_cost(rc)
     _mp_grdp(rc)
     _min_point(rc)
     res.assumptions += ["t > 0; thresholds finite", "S_k denotes the fixed-size refinement sequence of C05 (the alignment G1 makes the two loops generate the same sequence)"]
@@ -288,6 +297,13 @@ def _mp_grdp(rc: RuleCtx):
         res.ok("G4", fi.qualname, "returns the _grdp result iff len(reduced) >= min_points, else continues _rdp_fixed with budget min_points - len(reduced) on the same stack / reduced")
 
 
+def _iter_part(g: G) -> G:
+    """The conjuncts of an exit guard that only say 'inside an iteration of the loop'."""
+    items = g.a if g.kind == "and" else (g,)
+    keep = [x for x in items if x.kind == "atom" and isinstance(x.a, tuple) and x.a and x.a[0] == "iter"]
+    return g_and(*keep) if keep else TRUE
+
+
 def _min_point(rc: RuleCtx):
     res = rc.res
     fi = rc.func("rdp.min_point_rdp")
@@ -328,58 +344,94 @@ def _min_point(rc: RuleCtx):
         ok = False
         res.violation("G5", fi.module, fi.name, loop, "the thresholds are not visited in descending order", ast.unparse(pre[-1]) if pre else "", "for current_t in sorted(t, reverse=True)",
                       construct="threshold order")
-    cur = ev.symbol(loop.target.id)
-    benv = dict(env)
-    benv[loop.target.id] = cur
-    out = ev.eval_loop_body(fi, loop, benv)
-    calls = [e for e in out.events if e.kind == "call" and e.target == "rdp.grdp"]
-    good = len(calls) == 1 and calls[0].guard.kind == "true"
-    if good:
-        gpos = rc.func("rdp.grdp").signature.positional
-        # keyword t=current_t
-        call_node = calls[0].node
-        tkw = [kw for kw in call_node.keywords if kw.arg == "t"]
-        targ = tkw[0].value if tkw else (call_node.args[1] if len(call_node.args) > 1 else None)
-        good = targ is not None and isinstance(targ, ast.Name) and targ.id == loop.target.id
-    rets = out.returns
-    if good and len(rets) == 1:
-        g, v = rets[0]
-        # guard: len(reduced) >= min_points where reduced = item(grdp, 0)
-        ok_guard = False
-        if g.kind == "sign":
-            syms = g.a.symbols()
-            if "min_points" in syms:
-                for sgn in (OPS[">="],):
-                    for a in g.a.all_atoms():
-                        if a.kind == "fn" and a.name == "item" and a.args[1].is_const() == 0:
-                            nred = ev.length_of(Rat.from_atom(a))
-                            if g_equiv(g, canon_sign(nred - sym("min_points"), sgn)):
-                                ok_guard = True
-        is_pair = isinstance(v, Vec) and len(v.items) == 2
-        if ok_guard and is_pair:
-            res.ok("G5", f"{fi.qualname}:accept", "the first global-RDP result with len(reduced) >= min_points is returned")
-        else:
-            ok = False
-            res.violation("G5", fi.module, fi.name, loop, "a global-RDP result is not returned exactly when it has at least min_points points", f"{g} -> {_short(v, 80)}",
-                          "if len(reduced) >= min_points: return reduced, removed", construct="threshold accept")
-    else:
-        ok = False
-        res.violation("G5", fi.module, fi.name, loop, "each threshold is not tried by one grdp(points, t=current_t) run", str([e.target for e in out.events]),
-                      "grdp(points, t=current_t)", construct="threshold run")
-    fr2 = Frame(ev, fi, 0)
-    penv = dict(env)
-    fr2.block(post, penv, TRUE)
-    fb = fr2.returns
-    fb_ok = False
-    if len(fb) == 1 and isinstance(fb[0][1], Rat):
-        a = single_atom(fb[0][1])
-        if a is not None and a.name == "call:rdp.rdp_fixed":
-            amap = dict(zip(a.extra or (), a.args))
-            if amap.get("length") is not None and amap["length"].equals(sym("min_points")) and amap.get("points") is not None \
-                    and amap["points"].equals(ev.to_rat(pts)) and set(amap) == {"points", "length"}:
-                fb_ok = True
-    if fb_ok:
+    # ---- by value: the whole function, with `break` / `return` inside the loop and a loop-else modelled ------------------
+    ev2 = rc.new_eval()
+    ev2.no_inline |= {"rdp.grdp", "rdp.rdp_fixed"}
+    pts2 = ev2.point("points", True)
+    ev2.len_map = {"points": sym("n")}
+    mp = ev2.symbol("min_points")
+    try:
+        whole = ev2.eval_function(fi, {"points": pts2, "t": ev2.symbol("t", True), "min_points": mp})
+    except Unsupported as e:
+        raise AnalysisError(f"{fi.qualname}: not modelled: {e}")
+
+    def pair_source(v):
+        """('grdp'|'rdp_fixed', call atom) when v is the (reduced, removed) pair of one call of that simplifier."""
+        if isinstance(v, Rat):
+            a_ = single_atom(v)
+            if a_ is not None and a_.name in ("call:rdp.grdp", "call:rdp.rdp_fixed") and v.equals(Rat.from_atom(a_)):
+                return a_.name[9:], a_
+        if isinstance(v, Vec) and len(v.items) == 2 and all(isinstance(k_, Rat) for k_ in v.items):
+            r_, m_ = single_atom(v.items[0]), single_atom(v.items[1])
+            if r_ is not None and m_ is not None and r_.name == "item" and m_.name == "item" and r_.args[0].equals(m_.args[0]) \
+                    and r_.args[1].is_zero() and m_.args[1].is_const() == 1:
+                c_ = single_atom(r_.args[0])
+                if c_ is not None and c_.name in ("call:rdp.grdp", "call:rdp.rdp_fixed"):
+                    return c_.name[9:], c_
+        return None, None
+
+    def flat_cases(v):
+        if isinstance(v, Vec) and len(v.items) == 2:
+            out_ = []
+            for g1, a_ in cases_of(v.items[0]):
+                for g2, b_ in cases_of(v.items[1]):
+                    if g_sat(g_and(g1, g2)):
+                        out_.append((g_and(g1, g2), Vec([a_, b_])))
+            return out_
+        return cases_of(v)
+    seen_g = seen_f = False
+    for g, v in whole.returns:
+        for gc, vc in flat_cases(v):
+            if not g_sat(g_and(g, gc)):
+                continue
+            kind, call = pair_source(vc)
+            if kind == "grdp":
+                amap = dict(zip(call.extra or (), call.args))
+                tv = amap.get("t")
+                t_ok = tv is not None and set(amap) == {"points", "t"} and amap["points"].equals(ev2.to_rat(pts2)) and tv.atoms() and not tv.is_array() \
+                    and all(a_.kind == "sym" for a_ in tv.atoms())
+                if not t_ok:
+                    ok = False
+                    res.violation("G5", fi.module, fi.name, fi.node, "each threshold is not tried by one grdp(points, t=current_t) run", _short(Rat.from_atom(call), 120),
+                                  "grdp(points, t=current_t)", construct="threshold run")
+                    continue
+                # the exit that hands this result out (a return in the loop, or a break) requires len(reduced) >= min_points
+                nred = ev2.length_of(anf.opaque("item", Rat.from_atom(call), C(0), array=True))
+                want = canon_sign(nred - mp, OPS[">="])
+                exits = [gx for gx, _v in whole.returns if gx.kind != "true" and "iter" in repr(gx.key)] + list(whole.frame.breaks)
+                exits = [gx for gx in exits if g_sat(gx)]
+                if exits and all(g_implies(gx, want) for gx in exits) and any(g_equiv(g_and(gx, want), gx) for gx in exits):
+                    # and nothing weaker: the exit guard is exactly the test (within its iteration)
+                    exact = all(g_implies(g_and(_iter_part(gx), want), gx) for gx in exits)
+                else:
+                    exact = False
+                if exact:
+                    seen_g = True
+                else:
+                    ok = False
+                    res.violation("G5", fi.module, fi.name, fi.node, "a global-RDP result is not returned exactly when it has at least min_points points",
+                                  str([_short(gx, 120) for gx in exits]), "if len(reduced) >= min_points: return reduced, removed", construct="threshold accept")
+            elif kind == "rdp_fixed":
+                amap = dict(zip(call.extra or (), call.args))
+                if amap.get("length") is not None and amap["length"].equals(mp) and amap.get("points") is not None and amap["points"].equals(ev2.to_rat(pts2)) \
+                        and set(amap) == {"points", "length"}:
+                    seen_f = True
+                else:
+                    ok = False
+                    res.violation("G5", fi.module, fi.name, fi.node, "the fallback is not rdp_fixed(points, min_points)", _short(Rat.from_atom(call), 120),
+                                  "return rdp_fixed(points, min_points)", construct="fallback")
+            else:
+                ok = False
+                res.violation("G5", fi.module, fi.name, fi.node,
+                              "a returned (reduced, removed) pair is neither one grdp(points, t=current_t) result nor rdp_fixed(points, min_points)",
+                              _short(vc, 160), "the pair of one simplifier call", construct="returned pair")
+    if seen_g:
+        res.ok("G5", f"{fi.qualname}:accept", "the first global-RDP result with len(reduced) >= min_points is returned")
+    elif ok:
+        res.violation("G5", fi.module, fi.name, fi.node, "no global-RDP result is ever returned", "", "if len(reduced) >= min_points: return reduced, removed",
+                      construct="threshold accept")
+    if seen_f:
         res.ok("G5", f"{fi.qualname}:fallback", "rdp_fixed(points, min_points) when no threshold yields enough points")
-    else:
-        res.violation("G5", fi.module, fi.name, fi.node, "the fallback is not rdp_fixed(points, min_points)", str([_short(v, 100) for _g, v in fb]),
+    elif ok:
+        res.violation("G5", fi.module, fi.name, fi.node, "the fallback is not rdp_fixed(points, min_points)", "no rdp_fixed result is returned",
                       "return rdp_fixed(points, min_points)", construct="fallback")
